@@ -58,6 +58,11 @@ fn dispatch(st: &mut State, op: &Value) -> Value {
             "G2" => ops_curve::exec_msm::<pairing::bls12_381::G2>(op),
             _ => panic!("bad group"),
         },
+        "msml" => match g {
+            "G1" => ops_curve::exec_msml::<pairing::bls12_381::G1>(op),
+            "G2" => ops_curve::exec_msml::<pairing::bls12_381::G2>(op),
+            _ => panic!("bad group"),
+        },
         "xmd" | "xof" | "h2f" | "okm" | "h2c" => ops_hash::exec_hash(op),
         _ => ops_misc::exec_misc(&mut st.misc, op),
     }
@@ -95,6 +100,38 @@ pub fn run_script(ops: &[Value], out_path: &str) {
         w.write_all(b"\n").unwrap();
     }
     w.flush().unwrap();
+}
+
+fn njobs() -> usize {
+    std::env::var("VERIF_JOBS").ok().and_then(|s| s.parse().ok()).unwrap_or(16)
+}
+
+/// sessions are independent (each has its own State): run them on a pool of threads
+fn par_jobs(jobs: Vec<(Vec<Value>, String)>) {
+    let q = std::sync::Arc::new(std::sync::Mutex::new(jobs));
+    let mut hs = vec![];
+    for _ in 0..njobs() {
+        let q = q.clone();
+        hs.push(std::thread::Builder::new().stack_size(64 << 20).spawn(move || loop {
+            let job = q.lock().unwrap().pop();
+            match job {
+                Some((ops, path)) => run_script(&ops, &path),
+                None => break,
+            }
+        }).unwrap());
+    }
+    for h in hs {
+        h.join().unwrap();
+    }
+}
+
+fn par_run(sessions: Vec<Vec<Value>>, out: &str, name: &str) {
+    let jobs = sessions
+        .into_iter()
+        .enumerate()
+        .map(|(k, ops)| (ops, format!("{}/wl-{}-{:03}.trace.ndjson", out, name, k)))
+        .collect();
+    par_jobs(jobs);
 }
 
 fn read_script(path: &str) -> Vec<Value> {
@@ -142,24 +179,26 @@ fn main() {
     match pos[0].as_str() {
         // run <script>...: trace file next to --out, same base name
         "run" => {
-            for s in &pos[1..] {
-                let base = std::path::Path::new(s)
-                    .file_name()
-                    .unwrap()
-                    .to_str()
-                    .unwrap()
-                    .replace(".script", ".trace");
-                let ops = read_script(s);
-                run_script(&ops, &format!("{}/{}", out, base));
-            }
+            let jobs: Vec<(Vec<Value>, String)> = pos[1..]
+                .iter()
+                .map(|s| {
+                    let base = std::path::Path::new(s)
+                        .file_name()
+                        .unwrap()
+                        .to_str()
+                        .unwrap()
+                        .replace(".script", ".trace");
+                    (read_script(s), format!("{}/{}", out, base))
+                })
+                .collect();
+            par_jobs(jobs);
         }
         // wl <name>: seeded workload generator; writes scripts (for the record) and traces
         "wl" => {
             let sessions = wl::generate(&pos[1], seed, &tier);
-            for (k, ops) in sessions.iter().enumerate() {
-                run_script(ops, &format!("{}/wl-{}-{:03}.trace.ndjson", out, pos[1], k));
-            }
-            println!("{{\"sessions\": {}}}", sessions.len());
+            let n = sessions.len();
+            par_run(sessions, &out, &pos[1]);
+            println!("{{\"sessions\": {}}}", n);
         }
         x => {
             eprintln!("unknown command {}", x);
